@@ -323,8 +323,10 @@ theorem fromBelow_tok (a : Addr) (s : Server) (ei : Nat) (m : Msg) (asg : List N
     split
     · simp [hTok, tokOut, sumBy]
     · split
-      · rw [hTok_syserr]; exact Nat.le_refl _
-      · simp [hTok, tokOut, sumBy, tokMsg]
+      · simp [hTok, tokOut, sumBy]
+      · split
+        · rw [hTok_syserr]; exact Nat.le_refl _
+        · simp [hTok, tokOut, sumBy, tokMsg]
   | sysError cls => simp only [Server.fromBelow, tokMsg]; rw [hTok_syserr]; exact Nat.le_refl _
   | cancel x =>
     simp only [Server.fromBelow, tokMsg]
